@@ -319,6 +319,7 @@ fn run_once(case: &C16Case, slow: u32) -> CaseResult {
 
     // ---- start the server
     let mut port = 0u16;
+    let mut refused_add = false;
     let running: Running = if !is_c {
         let filter = rust_filter(&case.filter)?;
         let started = rt.block_on(async {
@@ -369,6 +370,21 @@ fn run_once(case: &C16Case, slow: u32) -> CaseResult {
                 }
                 f
             };
+            // in half of the cases the application then attempts an addition that the C ABI
+            // refuses (an address for an "any" or wildcard filter, a string that is no address
+            // for a set): the call reports an error and the filter must stay what it was
+            if case.peers.len() % 2 == 0 {
+                // (a wildcard without '*' is an address: the C ABI makes a set of it)
+                let is_set = strings.first().map(|t| t.parse::<IpAddr>().is_ok()).unwrap_or(false);
+                let text = if is_set { "not-an-address" } else { "10.9.8.7" };
+                let c = cstr(text);
+                let rc = ffi::rodbus_address_filter_add(filter, c.as_ptr());
+                if rc == 0 {
+                    ffi::rodbus_address_filter_destroy(filter);
+                    return Err(format!("INFRA: rodbus_address_filter_add({:?}) on filter {:?} was accepted; the harness has no model for that", text, filter_strings(&case.filter)));
+                }
+                refused_add = true;
+            }
             for _ in 0..8 {
                 let map = ffi::rodbus_device_map_create();
                 let handler = ffi::WriteHandler {
@@ -581,6 +597,9 @@ fn run_once(case: &C16Case, slow: u32) -> CaseResult {
     }
     if bursts > 0 {
         ok.label("mixed_burst");
+    }
+    if refused_add {
+        ok.label("c_abi_refused_add_before_use");
     }
     ok.nontrivial = served > 0 && refused > 0 && near > 0;
     Ok(ok)
